@@ -35,7 +35,13 @@ Definition resolve (feats : list string) (W : list waiver) (gps : list gpass) : 
    the exporter: "Call" is a call written by the user; "Call.ag" / "Call.fscope"
    are operator / function-scope calls, "Call.gen" the tuple(...)/dict(...) the
    call wrapper itself builds, "Call.debugger" pdb.set_trace & co, "Call.print"
-   print(...); "Return.gen" the single return at the end of a generated function. *)
+   print(...); "Return.gen" the single return at the end of a generated function.
+   Side condition of "Call.fscope" (call_trees.py leaves calls whose qualified name starts
+   with `<function context name>.` alone): the context name is fresh w.r.t. every identifier
+   of the function, names hidden from the activity sets included (parameters of nested
+   lambdas/defs, comprehension targets, except-as names).  It is not a theorem of this
+   model (naming is C11); the oracle of tools/props/c04.py checks it on every conversion and
+   classifies `N.attr(...)` under a user binding of N as a user call. *)
 Definition spec_natives : list kind :=
   ["If"; "While"; "For"; "Break"; "Continue"; "Return"; "BoolOp"; "UnaryOp.Not"; "IfExp"; "Call"].
 (* print is overloadable only when builtin overloading is on *)
